@@ -1,12 +1,13 @@
 (** ParseSoundUtf8.v — the C code's hex-digit / UTF-8 / surrogate-pair arithmetic (shifts and
     masks, ParseDefs.v) agrees with the grammar's (tables, division and remainder, Grammar.v).
-    The two finite facts are checked exhaustively by the kernel ([vm_compute]) over the complete
-    domains, which are stated in the lemmas: all 0x110000 code points, all 1024 x 1024
-    surrogate pairs. *)
+    Bit operations are reduced to division and remainder by the standard lemmas
+    ([Z.shiftr_div_pow2], [Z.land_ones], [Z.land_lor_distr_l]); what remains are facts about
+    single bytes, checked exhaustively on at most 256 values each. *)
 From CJ Require Import Base Dbl Tree ParseDefs Grammar.
+Require Import ZifyBool.
 Local Open Scope Z_scope.
+Local Ltac Zify.zify_post_hook ::= Z.div_mod_to_equations.
 
-(** exhaustive check of a boolean predicate on the interval [base, base + n) *)
 Fixpoint sweep (f : Z -> bool) (n : nat) (base : Z) : bool :=
   match n with O => true | S k => f base && sweep f k (base + 1) end.
 
@@ -52,51 +53,88 @@ Proof.
   apply hexv_range in Ea, Eb, Ec, Ed. lia.
 Qed.
 
-(** UTF-8 encoding: all code points 0 .. 0x10FFFF, row by row (4352 rows of 256) *)
-Definition enc_ok (cp : Z) : bool :=
-  match utf8_encode_c cp with Some b => bytes_eqb b (utf8_of_codepoint cp) | None => false end.
-Definition enc_row_ok (hi : Z) : bool := sweep enc_ok 256 (hi * 256).
+(* continuation byte: depends only on the low 8 bits *)
+Definition cont (x : Z) : Z := Z.land (Z.lor x 128) 191.
 
-Lemma enc_all_rows : sweep enc_row_ok (Z.to_nat 4352) 0 = true.
-Proof. vm_cast_no_check (eq_refl true). Qed.
+Lemma cont_mod256 x : cont x = cont (x mod 256).
+Proof.
+  unfold cont.
+  change 256 with (2 ^ 8). rewrite <- (Z.land_ones x 8) by lia. change (Z.ones 8) with 255.
+  change 191 with (Z.land 255 191) at 1. rewrite Z.land_assoc.
+  rewrite Z.land_lor_distr_l. change (Z.land 128 255) with 128. reflexivity.
+Qed.
+
+Lemma cont_small : sweep (fun y => cont y =? 128 + y mod 64) 256 0 = true.
+Proof. vm_compute. reflexivity. Qed.
+
+Lemma cont_spec x : cont x = 128 + x mod 64.
+Proof.
+  rewrite cont_mod256.
+  assert (H : (cont (x mod 256) =? 128 + (x mod 256) mod 64) = true).
+  { apply (sweep_spec _ _ _ cont_small). change (Z.of_nat 256) with 256. lia. }
+  apply Z.eqb_eq in H. rewrite H. lia.
+Qed.
+
+(* leading bytes *)
+Lemma lead2_small : sweep (fun y => Z.land (Z.lor y 192) 255 =? 192 + y) 32 0 = true.
+Proof. vm_compute. reflexivity. Qed.
+Lemma lead3_small : sweep (fun y => Z.land (Z.lor y 224) 255 =? 224 + y) 16 0 = true.
+Proof. vm_compute. reflexivity. Qed.
+Lemma lead4_small : sweep (fun y => Z.land (Z.lor y 240) 255 =? 240 + y) 8 0 = true.
+Proof. vm_compute. reflexivity. Qed.
+Lemma lead1_small : sweep (fun y => Z.land y 127 =? y) 128 0 = true.
+Proof. vm_compute. reflexivity. Qed.
 
 Lemma utf8_encode_agrees cp :
   0 <= cp <= 1114111 -> utf8_encode_c cp = Some (utf8_of_codepoint cp).
 Proof.
-  intro Hcp.
-  assert (Hrow : enc_row_ok (cp / 256) = true).
-  { apply (sweep_spec _ _ _ enc_all_rows). rewrite Z2Nat.id by lia.
-    split; [apply Z.div_pos; lia|]. apply Z.div_lt_upper_bound; lia. }
-  assert (Hok : enc_ok cp = true).
-  { unfold enc_row_ok in Hrow. apply (sweep_spec _ _ _ Hrow).
-    pose proof (Z.div_mod cp 256 ltac:(lia)) as Hdm.
-    pose proof (Z.mod_pos_bound cp 256 ltac:(lia)) as Hm.
-    change (Z.of_nat 256) with 256. lia. }
-  unfold enc_ok in Hok.
-  destruct (utf8_encode_c cp) as [b|]; [|discriminate].
-  apply bytes_eqb_eq in Hok. congruence.
+  intro Hcp. unfold utf8_encode_c, utf8_of_codepoint.
+  fold (cont cp). fold (cont (Z.shiftr cp 6)). fold (cont (Z.shiftr cp 12)).
+  rewrite !cont_spec. rewrite !Z.shiftr_div_pow2 by lia.
+  change (2 ^ 6) with 64. change (2 ^ 12) with 4096. change (2 ^ 18) with 262144.
+  destruct (Z.ltb_spec cp 128) as [H1|H1].
+  { assert (H : (Z.land cp 127 =? cp) = true).
+    { apply (sweep_spec _ _ _ lead1_small). change (Z.of_nat 128) with 128. lia. }
+    apply Z.eqb_eq in H. rewrite H. reflexivity. }
+  destruct (Z.ltb_spec cp 2048) as [H2|H2].
+  { assert (H : (Z.land (Z.lor (cp / 64) 192) 255 =? 192 + cp / 64) = true).
+    { apply (sweep_spec _ _ _ lead2_small). change (Z.of_nat 32) with 32. lia. }
+    apply Z.eqb_eq in H. rewrite H. reflexivity. }
+  destruct (Z.ltb_spec cp 65536) as [H3|H3].
+  { assert (H : (Z.land (Z.lor (cp / 4096) 224) 255 =? 224 + cp / 4096) = true).
+    { apply (sweep_spec _ _ _ lead3_small). change (Z.of_nat 16) with 16. lia. }
+    apply Z.eqb_eq in H. rewrite H. reflexivity. }
+  destruct (Z.leb_spec cp 1114111) as [H4|H4]; [|lia].
+  assert (H : (Z.land (Z.lor (cp / 262144) 240) 255 =? 240 + cp / 262144) = true).
+  { apply (sweep_spec _ _ _ lead4_small). change (Z.of_nat 8) with 8. lia. }
+  apply Z.eqb_eq in H. rewrite H. reflexivity.
 Qed.
 
-(** surrogate pairs: all high x low *)
-Definition pair_ok (hi lo : Z) : bool :=
-  65536 + Z.lor (Z.shiftl (Z.land hi 1023) 10) (Z.land lo 1023) =? pair_codepoint hi lo.
-Definition pair_row_ok (hi : Z) : bool := sweep (pair_ok hi) 1024 56320.
-
-Lemma pair_all_rows : sweep pair_row_ok 1024 55296 = true.
-Proof. vm_cast_no_check (eq_refl true). Qed.
+(* surrogate pairs *)
+Lemma lor_shift10 a b : 0 <= a -> 0 <= b < 1024 -> Z.lor (Z.shiftl a 10) b = a * 1024 + b.
+Proof.
+  intros Ha Hb. set (z := Z.lor (Z.shiftl a 10) b).
+  assert (Hq : z / 1024 = a).
+  { change 1024 with (2 ^ 10). rewrite <- Z.shiftr_div_pow2 by lia. unfold z.
+    rewrite Z.shiftr_lor, Z.shiftr_shiftl_l by lia. change (10 - 10) with 0. rewrite Z.shiftl_0_r.
+    rewrite (Z.shiftr_div_pow2 b) by lia. change (2 ^ 10) with 1024.
+    rewrite (Z.div_small b 1024) by lia. apply Z.lor_0_r. }
+  assert (Hr : z mod 1024 = b).
+  { change 1024 with (2 ^ 10). rewrite <- Z.land_ones by lia. unfold z.
+    rewrite Z.land_lor_distr_l, !Z.land_ones by lia. rewrite Z.shiftl_mul_pow2 by lia.
+    rewrite Z.mod_mul by lia. rewrite Z.lor_0_l. change (2 ^ 10) with 1024. apply Z.mod_small. lia. }
+  pose proof (Z.div_mod z 1024 ltac:(lia)) as Hdm. rewrite Hq, Hr in Hdm. lia.
+Qed.
 
 Lemma pair_formula hi lo :
   is_high_surrogate hi = true -> is_low_surrogate lo = true ->
   65536 + Z.lor (Z.shiftl (Z.land hi 1023) 10) (Z.land lo 1023) = pair_codepoint hi lo.
 Proof.
-  unfold is_high_surrogate, is_low_surrogate. intros Hh Hl.
+  unfold is_high_surrogate, is_low_surrogate, pair_codepoint. intros Hh Hl.
   apply andb_true_iff in Hh as [Hh1 Hh2]. apply andb_true_iff in Hl as [Hl1 Hl2].
-  assert (Hrow : pair_row_ok hi = true).
-  { apply (sweep_spec _ _ _ pair_all_rows). change (Z.of_nat 1024) with 1024. lia. }
-  unfold pair_row_ok in Hrow.
-  assert (Hok : pair_ok hi lo = true).
-  { apply (sweep_spec _ _ _ Hrow). change (Z.of_nat 1024) with 1024. lia. }
-  unfold pair_ok in Hok. apply Z.eqb_eq in Hok. exact Hok.
+  apply Z.leb_le in Hh1, Hh2, Hl1, Hl2.
+  change 1023 with (Z.ones 10). rewrite !Z.land_ones by lia. change (2 ^ 10) with 1024.
+  rewrite lor_shift10 by lia. lia.
 Qed.
 
 Lemma pair_codepoint_range hi lo :
